@@ -28,13 +28,18 @@ class Prop(common.PropertyCheck):
         for i in range(nfiles):
             spec = fcsgen.gen_spec(rng, max_events=12, max_par=4, family=fcsgen.FAMILIES[i % len(fcsgen.FAMILIES)])
             r = rng.random()
-            if r < 0.25 and spec['version'] != 'FCS2.0':
+            if spec['version'] == 'FCS2.0' and i % 4 in (1, 2):
+                spec['version'] = rng.choice(['FCS3.0', 'FCS3.1'])      # the layouts below need FCS3.x keywords
+                if spec['placement'] == 'header':
+                    spec['text_offsets_too'] = True
+            if i % 4 == 1:
                 spec['analysis'] = [['GATE%d' % j, 'v%d' % j] for j in range(rng.randrange(1, 4))]
                 spec['analysis_placement'] = rng.choice(['header', 'text'])
-            elif r < 0.4 and spec['version'] != 'FCS2.0':
+            elif i % 4 == 2:
+                # supplemental TEXT, after DATA (trailing) or before it
                 spec['stext'] = [['SK%d' % j, 'sv%d' % j] for j in range(rng.randrange(1, 4))]
-                spec['order'] = rng.choice(['TDSA', 'TSDA'])
-            elif r < 0.5:
+                spec['order'] = ['TDSA', 'TSDA', 'TDS'][(i // 4) % 3]
+            elif i % 4 == 3 and r < 0.5:
                 spec['order'] = 'DTA'
                 spec['pad_data'] = 0
             yield spec
